@@ -27,13 +27,15 @@ TInit == Init /\ l = 1
 TReset == /\ IsEv("Reset") /\ Trace[l].full = FullNode
           /\ height' = 0 /\ stored' = <<>> /\ rs' = [has |-> FALSE, run |-> -1]
           /\ db' = [hi |-> NoRec, hist |-> [h \in Heights |-> NoRec]]
-          /\ restarts' = 0 /\ top' = -1 /\ lc' = -1
+          /\ restarts' = 0 /\ wf' = 0 /\ top' = -1 /\ lc' = -1
           /\ act' = [name |-> "init", full |-> FullNode]
 TStartDuty == IsEv("StartDuty") /\ StartDuty(Trace[l].slot) /\ act'.ok = Trace[l].ok /\ ObsOK
 TCtlStart  == IsEv("CtlStart") /\ CtlStart(Trace[l].slot) /\ act'.ok = Trace[l].ok /\ ObsOK
-TLocalMsgs == IsEv("LocalMsgs") /\ LocalMsgs(Trace[l].h) /\ ObsOK
+(* "fail": the write attempts of the call (1 = its first db.Set) that the harness made fail, as they were hit *)
+Fails == {Trace[l].fail[j] : j \in 1..Len(Trace[l].fail)}
+TLocalMsgs == IsEv("LocalMsgs") /\ LocalMsgs(Trace[l].h, Fails) /\ ObsOK
 TCommit4   == IsEv("Commit4") /\ Commit4(Trace[l].h) /\ ObsOK
-TDecided   == IsEv("Decided") /\ Decided(Trace[l].h, Trace[l].r, Trace[l].n) /\ ObsOK
+TDecided   == IsEv("Decided") /\ Decided(Trace[l].h, Trace[l].r, Trace[l].n, Fails) /\ ObsOK
 TOnTimeout == IsEv("OnTimeout") /\ OnTimeout(Trace[l].h, Trace[l].r) /\ ObsOK
 TRestart   == IsEv("Restart") /\ Restart /\ ObsOK
 (* the process died inside the call, k database writes of it are durable; obs is taken after Validator.Start *)
